@@ -18,6 +18,7 @@ func init() {
 	vrt.Register("C16_recursion", Recursion)
 	vrt.Register("C16_arity", Arity)
 	vrt.Register("C16_nil_argument", NilArgument)
+	vrt.Register("C16_nested_calls", NestedCalls)
 }
 
 func itoa(n int) string { return strconv.Itoa(n) }
@@ -258,5 +259,34 @@ func NilArgument() {
 	got, err := render(in, ctx)
 	vrt.Assert(err == nil, "calling a user function with a nil argument renders")
 	vrt.Assert(got == want, "a parameter bound to nil is nil inside the function")
+	vrt.Cover("done")
+}
+
+// user-function calls as arguments of user-function calls, in any position, after earlier calls
+func NestedCalls() {
+	x, y, z := vrt.Int(), vrt.Int(), vrt.Int()
+	ctx := plush.NewContext()
+	ctx.Set("x", x)
+	ctx.Set("y", y)
+	ctx.Set("z", z)
+	defs := "<% let id = fn(v) { return v } %><% let pair = fn(p, q) { return \"\" + p + \"/\" + q } %><% let pick = fn(c, p, q) { if (c) { return p } return q } %>"
+	var in, want string
+	switch vrt.Choice(6) {
+	case 0:
+		in, want = "<%= id(x) %>;<%= pair(x, id(y)) %>", itoa(x)+";"+itoa(x)+"/"+itoa(y)
+	case 1:
+		in, want = "<%= pair(x, y) %>;<%= pair(id(x), id(y)) %>;<%= pair(x, id(y)) %>", itoa(x)+"/"+itoa(y)+";"+itoa(x)+"/"+itoa(y)+";"+itoa(x)+"/"+itoa(y)
+	case 2:
+		in, want = "<%= id(z) %>;<%= pick(true, x, pick(false, y, z)) %>", itoa(z)+";"+itoa(x)
+	case 3:
+		in, want = "<%= id(z) %>;<%= pick(false, x, pick(false, y, z)) %>", itoa(z)+";"+itoa(z)
+	case 4:
+		in, want = "<%= for (i) in [1, 2] { %><%= pair(x, id(y)) %>;<% } %>", itoa(x)+"/"+itoa(y)+";"+itoa(x)+"/"+itoa(y)+";"
+	default:
+		in, want = "<%= id(x) %>;<%= pair(x, pair(y, id(z))) %>", itoa(x)+";"+itoa(x)+"/"+itoa(y)+"/"+itoa(z)
+	}
+	got, err := render(defs+in, ctx)
+	vrt.Assert(err == nil, "nested user-function calls render")
+	vrt.Assert(got == want, "each parameter is bound to its own argument value when arguments are calls themselves")
 	vrt.Cover("done")
 }
